@@ -647,6 +647,15 @@ ROT2_RULES = ["CRX", "CRY", "CRZ"]
 CHAIN_TAC = ("repeat match goal with |- context [feq0 ?e] => destruct (feq0 e) end; vm_compute; reflexivity.")
 
 
+def report(run, key, what, replay, concrete=True):
+    """run.find, once per key"""
+    seen = run.notes.setdefault("reported_keys", [])
+    if key in seen:
+        return
+    seen.append(key)
+    run.find(key, what, replay, concrete)
+
+
 def sec_constants(run):
     ok = float(np.pi).hex() == PI_HEX and float(math.pi).hex() == PI_HEX
     run.oblige("tie:np.pi == 0x1.921fb54442d18p+1 (ModelFloat.f_pi)", ok, "tie")
@@ -914,7 +923,7 @@ def sec_flag_witnesses(run):
             if d > 1e-6:
                 fired = True
                 lab = "1.0" if theta == 1.0 else repr(theta)
-                run.find(f"flag_sound:{cls}({lab})", f"{cls}(0, {lab}).clifford is True ({lab} % (pi/2) == 1.0 'is_integer'); the circuit "
+                report(run, f"flag_sound:{cls}({lab})", f"{cls}(0, {lab}).clifford is True ({lab} % (pi/2) == 1.0 'is_integer'); the circuit "
                          f"H,{cls}({lab}) is accepted and the stabiliser state is not the state-vector result (defect {d:.3f})",
                          {"kind": "flag_sound", "cls": cls, "theta": float(theta).hex()})
     if fired:
@@ -936,7 +945,7 @@ def sec_flag_witnesses(run):
                 d = 0.0
             if d > 1e-6:
                 fired = True
-                run.find(f"cr_flag:{cls}(pi/2)", f"{cls}(0, 1, pi/2).clifford is True but the operator is not Clifford; the engine's {cls} "
+                report(run, f"cr_flag:{cls}(pi/2)", f"{cls}(0, 1, pi/2).clifford is True but the operator is not Clifford; the engine's {cls} "
                          f"falls through every branch (returns None) and the gate is simulated as the identity (defect {d:.3f})",
                          {"kind": "cr_flag", "cls": cls, "theta": float(np.pi / 2).hex()})
     if fired:
@@ -1047,18 +1056,553 @@ def sec_flags(run):
         d = stabiliser_defect(T, n, statevector(c))
         run.case(["flag_semantics", lab, nc, d > 1e-6])
         if d > 1e-6:
-            name = lab.split("[")[0]
-            if nc and type(gg_).__name__ == name and not lab.startswith(("RX", "RY", "RZ")):
+            name = type(gg_).__name__
+            ang = lab[lab.index("["):] if "[" in lab else ""
+            cs = ",".join(str(q) for q in range(nc))
+            if nc and gg_.control_qubits and not set(gg_.control_qubits) <= set(gg_.init_args):
                 fired = True
-                key = f"controlled_flag:{name}.controlled_by({','.join(str(q) for q in range(nc))})"
-                run.find(key, f"{name}({','.join(map(str, qs))}).controlled_by({','.join(str(q) for q in range(nc))}).clifford is True; "
-                         f"apply_gate_clifford passes only init_args={list(gg_.init_args)} to the engine, the controls are dropped "
-                         f"(stabiliser state vs state vector: defect {d:.3f})",
-                         {"kind": "controlled_flag", "gate": lab, "controls": nc, "nq": nq})
-            elif "[1.0]" in lab or (nq == 2 and "[pi/2]" in lab) or nc:
-                pass   # angle-flag defects: reported by sec_flag_witnesses with their own keys
+                report(run, f"controlled_flag:{name}{ang}.controlled_by({cs})",
+                       f"{name}{ang}({','.join(map(str, qs))}).controlled_by({cs}).clifford is True; apply_gate_clifford passes only "
+                       f"init_args={list(gg_.init_args)} to the engine, the control qubits are dropped and the bare gate is simulated "
+                       f"(stabiliser state vs state vector: defect {d:.3f})",
+                       {"kind": "controlled_flag", "gate": lab, "controls": nc, "nq": nq})
+            elif ang == "[1.0]":
+                report(run, f"flag_sound:{name}(1.0)", f"{name}(..., 1.0).clifford is True (1.0 % (pi/2) == 1.0 'is_integer'); accepted and "
+                       f"simulated as a Clifford gate (defect {d:.3f})", {"kind": "flag_semantics", "gate": lab, "controls": nc, "nq": nq})
+            elif name in ROT2 and ang == "[pi/2]":
+                report(run, f"cr_flag:{name}(pi/2)", f"{name}(c, t, pi/2).clifford is True but the operator is not Clifford; simulated as the "
+                       f"identity (defect {d:.3f})", {"kind": "flag_semantics", "gate": lab, "controls": nc, "nq": nq})
             else:
-                run.find(f"flag_semantics:{lab}/c{nc}", f"{lab} is flagged Clifford but the simulated state is not the state-vector result (defect {d:.3f})",
-                         {"kind": "flag_semantics", "gate": lab, "controls": nc, "nq": nq})
+                report(run, f"flag_semantics:{lab}/c{nc}", f"{lab} with {nc} controls is flagged Clifford but the simulated state is not the "
+                       f"state-vector result (defect {d:.3f})", {"kind": "flag_semantics", "gate": lab, "controls": nc, "nq": nq})
     if fired:
         run.refuted.append("controlled_flag_ok")
+
+
+# ---------------------------------------------------------------- rule-level probes (complete local truth tables)
+STATIC_OP = {}
+for _f in RULE1:
+    STATIC_OP[_f] = ("1", f"m_{_f}")
+for _f in RULE2:
+    STATIC_OP[_f] = ("2", f"m_{_f}")
+for _f in ROT1_RULES:
+    STATIC_OP[_f] = ("1t", f"m_{_f}")
+for _f in ROT2_RULES:
+    STATIC_OP[_f] = ("2t", f"m_{_f}")
+
+
+def probe_matrix(rng, n, qs):
+    """rows: every assignment of the local bits (x,z at qs, r) with random bits elsewhere"""
+    k = len(qs)
+    rows = []
+    for v in range(2 ** (2 * k + 1)):
+        row = [rng.randint(0, 1) for _ in range(2 * n + 1)]
+        bits = [(v >> j) & 1 for j in range(2 * k + 1)]
+        for j, q in enumerate(qs):
+            row[q], row[n + q] = bits[2 * j], bits[2 * j + 1]
+        row[-1] = bits[-1]
+        rows.append(row)
+    return np.array(rows, dtype=np.uint8)
+
+
+def sec_probes(run, rng, fnames):
+    """every engine rule on a matrix that contains the complete local truth table, packed exactly as
+    execute_circuit packs it; model (static rules + float dispatch) vs real, bit for bit"""
+    eng = fresh_engine()
+    a1, a2 = clifford_angles()
+    extra = [1.0, 0.3, -0.0, 11 * np.pi / 2, 1e6, np.pi / 2 + 1, 7.0, -1.0]
+    items, metas = [], []
+    n = 3
+    for f in fnames:
+        if f not in STATIC_OP:
+            continue
+        kind, m = STATIC_OP[f]
+        k = 1 if kind[0] == "1" else 2
+        placements = [[2], [0]] if k == 1 else [[2, 0], [0, 1], [1, 2]]
+        if run.tier == "thorough":
+            placements = [[q] for q in range(n)] if k == 1 else [[a, b_] for a in range(n) for b_ in range(n) if a != b_]
+        thetas = [None]
+        if kind.endswith("t"):
+            base = (a1 if k == 1 else a2) + ([a for a in a1 if a not in a2] if k == 2 else [])
+            thetas = base + extra if run.tier == "thorough" else rng.sample(base, min(8, len(base))) + extra[:5]
+        for qs in placements:
+            for th in thetas:
+                P = probe_matrix(rng, n, qs)
+                packed = eng._clifford_pre_execution_reshape(P.copy())
+                args = [packed] + qs + [n] + ([th] if th is not None else [])
+                res = getattr(eng, f)(*args)
+                if th is None:
+                    opt = f"Op{k} {m} " + " ".join(str(q) for q in qs)
+                    expect_none = False
+                elif k == 1:
+                    opt = f"Op1 ({m} {cfloat(th)}) {qs[0]}"
+                    expect_none = False
+                else:
+                    opt = None
+                if res is None:
+                    if k == 2 and th is not None:
+                        term = f"match {m} {cfloat(th)} with None => true | Some _ => false end"
+                    else:
+                        term = "false"
+                else:
+                    out = np.unpackbits(res, axis=0, count=P.shape[0])[:P.shape[0]]
+                    if k == 2 and th is not None:
+                        term = (f"match {m} {cfloat(th)} with Some f => llbeq (tab_bits (tab_op (Op2 f {qs[0]} {qs[1]}) {ctableau(P, n)})) "
+                                f"{cmatrix(out)} | None => false end")
+                    else:
+                        term = f"llbeq (tab_bits (tab_op ({opt}) {ctableau(P, n)})) {cmatrix(out)}"
+                lab = f"{f}{qs}{'' if th is None else float(th).hex()}"
+                items.append((lab, term))
+                metas.append((f, qs, None if th is None else float(th).hex()))
+    bad = 0
+    for k0 in range(0, len(items), 250):
+        chunk = items[k0:k0 + 250]
+        res, out = run.coq_bools(f"Probes_{k0 // 250}.v", COQ_HEADER, chunk)
+        if res is None:
+            run.oblige("correspondence:rule probes", False, "correspondence")
+            run.find("probes:compile", "probe file does not compile", {"log": out[-800:]}, concrete=False)
+            return
+        for (lab, _), meta in zip(chunk, metas[k0:k0 + 250]):
+            run.case(["probe"] + list(meta))
+            if not res[lab]:
+                bad += 1
+                if bad <= 5:
+                    run.find(f"probes:{meta[0]}", f"engine rule {meta[0]} on qubits {meta[1]} (theta={meta[2]}) differs from the verified rule on the "
+                             "complete local truth table", {"kind": "probe", "fn": meta[0], "qubits": meta[1], "theta": meta[2]}, concrete=False)
+    run.oblige(f"correspondence:every engine rule on its complete local truth table ({len(items)} rule x placement x angle)", bad == 0, "correspondence")
+    run.sample({"probe": list(metas[len(metas) // 2])})
+
+
+# ---------------------------------------------------------------- measurement on the real engine with recorded draws
+class _NpProxy:
+    """numpy with a recording np.random.randint (the engine's only source of randomness)"""
+
+    def __init__(self, log, forced=None):
+        self._log, self._forced = log, forced
+
+    def __getattr__(self, k):
+        return getattr(np, k)
+
+    @property
+    def random(self):
+        outer = self
+
+        class R:
+            def __getattr__(self, k):
+                return getattr(np.random, k)
+
+            def randint(self, *a, **kw):
+                if outer._forced is not None:
+                    v = np.array([outer._forced.pop(0)])
+                else:
+                    v = np.random.randint(*a, **kw)
+                outer._log.append(int(np.asarray(v).ravel()[0]))
+                return v
+        return R()
+
+
+def engine_M(eng, T, qubits, n, forced=None):
+    """real engine.M on a copy of the tableau; returns (sample, list of random draws)"""
+    log = []
+    saved = eng.np
+    eng.np = _NpProxy(log, forced)
+    try:
+        s = eng.M(np.array(T, dtype=np.uint8), tuple(qubits), n)
+    finally:
+        eng.np = saved
+    return [int(v) for v in s], log
+
+
+def born_probability(psi, n, qubits, sample):
+    P = (np.abs(psi) ** 2).reshape([2] * n)
+    idx = [slice(None)] * n
+    for q, v in zip(qubits, sample):
+        idx[q] = int(v)
+    return float(P[tuple(idx)].sum())
+
+
+WITNESS_CIRCUITS = [
+    # (label, n, gates, measured qubits)
+    ("CNOT(0,1).H(0).CNOT(1,2).CNOT(0,1).M(2)", 3,
+     [{"g": "CNOT", "q": [0, 1]}, {"g": "H", "q": [0]}, {"g": "CNOT", "q": [1, 2]}, {"g": "CNOT", "q": [0, 1]}], [2]),
+    ("CNOT(0,1).H(0).CNOT(0,1).M(0,1)", 2,
+     [{"g": "CNOT", "q": [0, 1]}, {"g": "H", "q": [0]}, {"g": "CNOT", "q": [0, 1]}], [0, 1]),
+    ("H(0).CNOT(0,1).M(0,1)", 2, [{"g": "H", "q": [0]}, {"g": "CNOT", "q": [0, 1]}], [0, 1]),
+    ("H(0).CNOT(0,1).CNOT(1,2).M(2,0,1)", 3, [{"g": "H", "q": [0]}, {"g": "CNOT", "q": [0, 1]}, {"g": "CNOT", "q": [1, 2]}], [2, 0, 1]),
+]
+
+
+def measure_terms(n, T, qs, sample, oracle):
+    """Coq booleans: does the model instance reproduce the sample the real engine returned?"""
+    tt, q, o, s = ctableau(T, n), cnats(qs), cbools(oracle), cbools(sample)
+    def t(rs, det):
+        return f"match measure {rs} {det} {n} {tt} {q} {o} with Some (s, _) => lbeq s {s} | None => false end"
+    return [t("rowsum_packed", "determined_real"), t("rowsum_ag", "determined_spec"),
+            t("rowsum_ag", "determined_real"), t("rowsum_packed", "determined_spec")]
+
+
+def sec_circuits(run, rng):
+    """random circuits over the whole Clifford library: final tableau model == real (bit for bit);
+    stabilisers stabilise the state vector (test); generators; measurement samples"""
+    from qibo import Circuit, gates
+    from qibo.backends import CliffordBackend
+    b = CliffordBackend(engine="numpy")
+    eng = b.engine
+    a1, a2 = clifford_angles()
+    quick = run.tier == "quick"
+    ncirc = 240 if quick else 1500
+    nmax = 5 if quick else 8
+    cases = []
+    for (lab, n, descs, qs) in WITNESS_CIRCUITS:
+        cases.append((lab, n, descs, qs))
+    for j in range(ncirc):
+        n = rng.randint(1, nmax)
+        depth = rng.randint(1, 6 * n + 4)
+        descs = random_descs(rng, n, depth, a1, a2)
+        qs = list(range(n))
+        rng.shuffle(qs)
+        qs = qs[:rng.randint(1, n)]
+        cases.append((None, n, descs, qs))
+    tab_items, meas_items, metas = [], [], []
+    sv_bad = gen_bad = 0
+    for ci, (lab, n, descs, qs) in enumerate(cases):
+        c = make_circuit(n, descs)
+        try:
+            T, res = real_tableau(b, c)
+        except RuntimeError as e:
+            report(run, "circuits:generator", "generator produced a circuit the backend refuses: " + str(e), {"descs": descs}, concrete=False)
+            continue
+        tab_items.append((f"tab{ci}", f"outcome_is (execute_circuit {n} {circuit_coq(c)}) {cmatrix(T)}"))
+        # ---- tests against the state-vector backend
+        psi = statevector(make_circuit(n, descs))
+        d = stabiliser_defect(T, n, psi)
+        if d > TOL:
+            sv_bad += 1
+            report(run, "tableau:statevector:" + (lab or f"random{ci}"),
+                   f"a stabiliser of the Clifford result does not stabilise the state-vector result (defect {d:.3g})",
+                   {"kind": "circuit", "n": n, "descs": descs})
+        if n <= 4 and ci % 4 == 0:
+            G, ph = res.generators(return_array=True)
+            for i in range(2 * n):
+                row = T[i]
+                M1 = np.array([pauli_apply(row[:n], row[n:2 * n], row[-1], e) for e in np.eye(2 ** n, dtype=complex)]).T
+                if not np.array_equal(M1, np.asarray(ph[i] * G[i])):
+                    gen_bad += 1
+                    report(run, "generators:encoding", "symplectic_matrix_to_generators differs from the row encoding (-1)^r (x) i^{xz} X^x Z^z",
+                           {"kind": "circuit", "n": n, "descs": descs, "row": i})
+                    break
+            if n <= 3:
+                rho = np.asarray(res.state())
+                if np.abs(rho - np.outer(psi, psi.conj())).max() > TOL:
+                    report(run, "state:projector", "Clifford.state() differs from |psi><psi| of the state vector",
+                           {"kind": "circuit", "n": n, "descs": descs})
+        # ---- measurement: real engine.M with recorded draws
+        sample, oracle = engine_M(eng, T, qs, n)
+        p = born_probability(psi, n, qs, sample)
+        terms = measure_terms(n, T, qs, sample, oracle)
+        for k, t in enumerate(terms):
+            meas_items.append((f"m{ci}_{k}", t))
+        metas.append((ci, lab, n, descs, qs, sample, oracle, p))
+        if ci < 3 or ci == len(WITNESS_CIRCUITS) + 1:
+            run.sample({"circuit": [gate_desc(g) for g in c.queue][:10], "n": n, "measured": qs, "sample": sample, "draws": oracle,
+                        "born_probability": round(p, 6)})
+    # ---- Coq side
+    tab_ok = True
+    for k0 in range(0, len(tab_items), 120):
+        chunk = tab_items[k0:k0 + 120]
+        r_, out = run.coq_bools(f"Tableaux_{k0 // 120}.v", COQ_HEADER, chunk, timeout=900)
+        if r_ is None:
+            tab_ok = False
+            run.find("tableau:compile", "tableau correspondence file does not compile", {"log": out[-800:]}, concrete=False)
+            continue
+        for (labk, _) in chunk:
+            ci = int(labk[3:])
+            run.case(["tableau", cases[ci][1], cases[ci][2]], nontrivial=len(cases[ci][2]) > 1)
+            if not r_[labk]:
+                tab_ok = False
+                report(run, f"tableau:model:{ci}", "final tableau of the real backend differs from the model",
+                       {"kind": "circuit", "n": cases[ci][1], "descs": cases[ci][2]}, concrete=False)
+    run.oblige(f"correspondence:final symplectic matrix model == CliffordBackend(numpy), {len(tab_items)} circuits, n <= {nmax}", tab_ok, "correspondence")
+    run.oblige(f"test:stabiliser generators stabilise the state-vector result ({len(tab_items)} circuits, tol {TOL})", sv_bad == 0, "test")
+    run.oblige("test:symplectic_matrix_to_generators == row encoding; Clifford.state() == projector (n <= 3)", gen_bad == 0, "test")
+    mres = {}
+    m_ok = True
+    for k0 in range(0, len(meas_items), 400):
+        chunk = meas_items[k0:k0 + 400]
+        r_, out = run.coq_bools(f"Measure_{k0 // 400}.v", COQ_HEADER, chunk, timeout=900)
+        if r_ is None:
+            m_ok = False
+            run.find("measure:compile", "measurement correspondence file does not compile", {"log": out[-800:]}, concrete=False)
+            continue
+        mres.update(r_)
+    n_real = n_spec = n_neither = n_zero = 0
+    for (ci, lab, n, descs, qs, sample, oracle, p) in metas:
+        if f"m{ci}_0" not in mres:
+            continue
+        rr_, ss_, sr_, rs_ = (mres[f"m{ci}_{k}"] for k in range(4))
+        run.case(["measure", n, descs, qs, sample], nontrivial=len(oracle) < len(qs))
+        n_real += rr_
+        n_spec += ss_
+        if not rr_ and not ss_:
+            n_neither += 1
+        if p < TOL:
+            n_zero += 1
+            if rr_ and not ss_:
+                mech = "determined_outcome" if sr_ else ("rowsum_packed" if rs_ else "determined_outcome+rowsum_packed")
+            else:
+                mech = "unexplained"
+            key = f"measure:{mech}:" + (lab if lab else "random")
+            report(run, key, f"sampled outcome {sample} of qubits {qs} has Born probability 0 in the state-vector result "
+                   f"(n={n}, random draws {oracle}); mechanism: {mech}",
+                   {"kind": "measure", "n": n, "descs": descs, "qubits": qs, "forced": oracle, "sample": sample})
+    run.notes["measurement"] = {"cases": len(metas), "engine == model of the engine as written": n_real,
+                                "engine == Aaronson-Gottesman reference": n_spec, "neither": n_neither, "born_probability_zero": n_zero}
+    if n_real == len(metas):
+        run.oblige(f"correspondence:engine.M == M_real (bit-exact model incl. byte packing) with recorded draws, {len(metas)} measurements", m_ok, "correspondence")
+        if n_spec < len(metas):
+            run.refuted += ["rowsum_ok (engine as written)", "determined_outcome_ok (engine as written)"]
+    elif n_spec == len(metas):
+        run.oblige(f"correspondence:engine.M == M_spec (Aaronson-Gottesman) with recorded draws, {len(metas)} measurements", m_ok, "correspondence")
+        run.notes["measurement_model"] = "the engine now agrees with the AG reference; the model of the packed-byte defect no longer applies"
+    else:
+        run.oblige("correspondence:engine.M == model", False, "correspondence")
+        report(run, "measure:model", f"engine.M matches neither model consistently (real-model {n_real}, spec {n_spec} of {len(metas)})", {}, concrete=False)
+    # ---- public API: Clifford.samples() through sample_shots
+    zero = 0
+    for j in range(12 if quick else 60):
+        n = rng.randint(2, 4)
+        descs = random_descs(rng, n, rng.randint(3, 5 * n), a1, a2)
+        qs = rng.sample(range(n), rng.randint(1, n))
+        c = make_circuit(n, descs)
+        c.add(gates.M(*qs))
+        psi = statevector(make_circuit(n, descs))
+        smp = np.asarray(b.execute_circuit(c, nshots=6).samples())
+        for row in smp:
+            run.case(["samples", n, descs, qs, [int(v) for v in row]])
+            if born_probability(psi, n, qs, row) < TOL:
+                zero += 1
+                report(run, "measure:samples:random", f"Clifford.samples() returned {[int(v) for v in row]} for qubits {qs}: Born probability 0",
+                       {"kind": "samples", "n": n, "descs": descs, "qubits": qs})
+    run.notes["measurement"]["public_api_samples_with_zero_probability"] = zero
+
+
+# ---------------------------------------------------------------- refusal of non-Clifford circuits
+def non_clifford_gates(rng, n):
+    from qibo import gates
+    q = rng.randrange(n)
+    c, t = rng.sample(range(n), 2) if n >= 2 else (0, 0)
+    pool = [lambda: gates.T(q), lambda: gates.TDG(q), lambda: gates.RX(q, 0.3), lambda: gates.RY(q, rng.uniform(0.1, 1.4)),
+            lambda: gates.RZ(q, np.pi / 4), lambda: gates.U3(q, 0.1, 0.2, 0.3), lambda: gates.U1(q, 0.7), lambda: gates.GPI(q, 0.4),
+            lambda: gates.RX(q, np.float32(np.pi)), lambda: gates.RX(q, 3)]
+    if n >= 2:
+        pool += [lambda: gates.CRX(c, t, 0.3), lambda: gates.fSim(c, t, 0.3, 0.2), lambda: gates.CU1(c, t, 0.5), lambda: gates.RZZ(c, t, 0.3),
+                 lambda: gates.SiSWAP(c, t), lambda: gates.CSX(c, t)]
+    if n >= 3:
+        a, b_, d = rng.sample(range(n), 3)
+        pool += [lambda: gates.TOFFOLI(a, b_, d), lambda: gates.CCZ(a, b_, d), lambda: gates.X(d).controlled_by(a, b_)]
+    return rng.choice(pool)()
+
+
+def sec_reject(run, rng):
+    from qibo import Circuit
+    from qibo.backends import CliffordBackend
+    b = CliffordBackend(engine="numpy")
+    a1, a2 = clifford_angles()
+    items, metas = [], []
+    bad = 0
+    for j in range(60 if run.tier == "quick" else 400):
+        n = rng.randint(1, 5)
+        descs = random_descs(rng, n, rng.randint(0, 10), a1, a2)
+        pos = rng.randint(0, len(descs))
+        c = Circuit(n)
+        for d in descs[:pos]:
+            c.add(make_gate(d))
+        g = non_clifford_gates(rng, n)
+        c.add(g)
+        for d in descs[pos:]:
+            c.add(make_gate(d))
+        try:
+            b.execute_circuit(c)
+            outcome = "accepted"
+        except RuntimeError as e:
+            outcome = "rejected" if "non-Clifford" in str(e) else "error:" + str(e)[:60]
+        except Exception as e:
+            outcome = "error:" + type(e).__name__
+        run.case(["reject", n, type(g).__name__, [float(p_) if isinstance(p_, (int, float)) else str(p_) for p_ in g.parameters], pos])
+        if outcome != "rejected":
+            bad += 1
+            report(run, f"reject:{type(g).__name__}", f"a circuit containing the non-Clifford gate {type(g).__name__}{g.parameters} on {g.qubits} "
+                   f"was not refused with RuntimeError ({outcome})", {"kind": "reject", "n": n, "gate": gate_desc(g)})
+        items.append((f"rej{j}", f"is_rejected (execute_circuit {n} {circuit_coq(c)})"))
+    res, out = run.coq_bools("Reject.v", COQ_HEADER, items)
+    ok = res is not None and all(res.values())
+    run.oblige(f"correspondence:circuits with one non-Clifford gate are rejected by model and backend ({len(items)} circuits)", ok and bad == 0, "correspondence")
+    if res is None:
+        run.find("reject:compile", "rejection file does not compile", {"log": out[-800:]}, concrete=False)
+    elif not all(res.values()):
+        report(run, "reject:model", "model accepts a circuit the backend rejects", {}, concrete=False)
+
+
+# ---------------------------------------------------------------- collapsing measurement inside a circuit (repeated execution)
+def sec_collapse(run):
+    """H(0); M(0, collapse=True); M(0): both results of a shot must agree (Born probability of (a, not a) is 0)"""
+    from qibo import Circuit, gates
+    from qibo.backends import CliffordBackend
+    b = CliffordBackend(engine="numpy")
+    c = Circuit(1)
+    c.add(gates.H(0))
+    m1 = c.add(gates.M(0, collapse=True))
+    c.add(gates.M(0))
+    try:
+        res = b.execute_circuit(c, nshots=24)
+        mid = np.array(m1.samples()).ravel()
+        fin = np.asarray(res.samples()).ravel()
+    except Exception as e:
+        run.notes["collapse"] = f"collapsing measurement refused: {type(e).__name__}"
+        return
+    run.case(["collapse", mid.tolist(), fin.tolist()])
+    if len(mid) != len(fin) or (mid != fin).any():
+        report(run, "collapse:H(0).M(0,collapse=True).M(0)",
+               "Clifford backend: the collapsing mid-circuit measurement and the final measurement of the same qubit disagree within a shot "
+               f"(mid={mid.tolist()[:12]}, final={fin.tolist()[:12]}): engine.M(collapse=True) unpacks 2n instead of 2n+1 rows and never "
+               "writes the collapsed state back", {"kind": "collapse"})
+        run.refuted.append("collapse_ok (not modelled; observed on the real code)")
+
+
+# ---------------------------------------------------------------- stim engine
+STIM_OK = ["H", "S", "X", "Y", "Z", "I", "CNOT", "CY", "CZ", "SWAP", "iSWAP"]
+
+
+def sec_stim(run, rng):
+    from qibo import Circuit, gates
+    from qibo.backends import CliffordBackend
+    try:
+        bs = CliffordBackend(engine="stim")
+    except Exception as e:
+        run.notes["stim"] = f"stim engine not available: {e}"
+        return
+    b = CliffordBackend(engine="numpy")
+    bad = 0
+    cnt = 60 if run.tier == "quick" else 400
+    for j in range(cnt):
+        n = rng.randint(1, 6)
+        descs = []
+        for _ in range(rng.randint(1, 25)):
+            g = rng.choice(STIM_OK)
+            if g in ("CNOT", "CY", "CZ", "SWAP", "iSWAP"):
+                if n < 2:
+                    continue
+                descs.append({"g": g, "q": rng.sample(range(n), 2)})
+            else:
+                descs.append({"g": g, "q": [rng.randrange(n)]})
+        T1, _ = real_tableau(b, make_circuit(n, descs))
+        T2 = np.asarray(bs.execute_circuit(make_circuit(n, descs)).symplectic_matrix).astype(np.uint8)
+        run.case(["stim", n, descs])
+        if T1.shape != T2.shape or not np.array_equal(T1, T2):
+            bad += 1
+            report(run, "stim:tableau", "stim engine and numpy engine give different tableaux", {"kind": "stim", "n": n, "descs": descs})
+    run.oblige(f"test:stim engine tableau == numpy engine tableau ({cnt} circuits over {STIM_OK})", bad == 0, "test")
+    # names the stim path cannot express are refused by an exception of stim; controlled gates are not
+    refused = []
+    for mk in (lambda: gates.SDG(0), lambda: gates.SX(0), lambda: gates.RX(0, np.pi / 2), lambda: gates.ECR(0, 1), lambda: gates.T(0),
+               lambda: gates.M(0)):
+        c = Circuit(2)
+        g = mk()
+        c.add(g)
+        try:
+            bs.execute_circuit(c)
+            refused.append(f"{type(g).__name__}: accepted")
+        except Exception as e:
+            refused.append(f"{type(g).__name__}: {type(e).__name__}")
+    run.notes["stim_refusals"] = refused
+    c = Circuit(3)
+    for q in range(3):
+        c.add(gates.H(q))
+    c.add(gates.Z(2).controlled_by(0, 1))
+    try:
+        T = np.asarray(bs.execute_circuit(c).symplectic_matrix).astype(np.uint8)
+        c2 = Circuit(3)
+        for q in range(3):
+            c2.add(gates.H(q))
+        c2.add(gates.Z(2).controlled_by(0, 1))
+        d = stabiliser_defect(T, 3, statevector(c2))
+        if d > 1e-6:
+            report(run, "controlled_flag:stim:Z.controlled_by(0,1)", "stim engine: Z(2).controlled_by(0,1) is appended as `Z 0 1 2` (three bare Z gates); "
+                   f"no Clifford test at all on the stim path (defect {d:.3f})", {"kind": "stim_controlled"})
+    except Exception as e:
+        run.notes["stim_controlled"] = f"refused: {type(e).__name__}"
+
+
+# ---------------------------------------------------------------- tableau -> circuit
+def sec_to_circuit(run, rng):
+    from qibo.backends import CliffordBackend
+    from qibo.quantum_info.clifford import Clifford
+    b = CliffordBackend(engine="numpy")
+    a1, a2 = clifford_angles()
+    bad = exact = 0
+    cnt = 40 if run.tier == "quick" else 300
+    done = 0
+    for j in range(cnt):
+        n = rng.randint(1, 5)
+        descs = random_descs(rng, n, rng.randint(1, 6 * n), a1, a2)
+        T, res = real_tableau(b, make_circuit(n, descs))
+        psi = statevector(make_circuit(n, descs))
+        for alg in ("AG04", "BM20"):
+            if alg == "BM20" and n > 3:
+                continue
+            try:
+                circ = Clifford(T.copy(), _backend=b).to_circuit(alg)
+            except Exception as e:
+                bad += 1
+                report(run, f"to_circuit:{alg}:raises", f"to_circuit({alg}) raised {type(e).__name__}: {e}", {"kind": "to_circuit", "n": n, "descs": descs, "alg": alg})
+                continue
+            T2, _ = real_tableau(b, circ)
+            done += 1
+            run.case(["to_circuit", alg, n, descs])
+            same_stab = np.array_equal(T[n:2 * n], T2[n:2 * n])
+            exact += bool(np.array_equal(T[:2 * n], T2[:2 * n]))
+            d = stabiliser_defect(T, n, statevector(circ)) if not same_stab else 0.0
+            if d > TOL:
+                bad += 1
+                report(run, f"to_circuit:{alg}", f"the circuit produced by to_circuit({alg}) does not prepare the stabiliser state of the tableau "
+                       f"(defect {d:.3g})", {"kind": "to_circuit", "n": n, "descs": descs, "alg": alg})
+    run.oblige(f"test:to_circuit(AG04/BM20) re-simulates to the same stabiliser state ({done} conversions, {exact} with identical tableau)", bad == 0, "test")
+
+
+# =====================================================================================
+# 4. entry points
+# =====================================================================================
+RULE_TEXT = ("random circuits over the Clifford library (H X Y Z S SDG SX SXDG I, RX/RY/RZ at flagged fl(k*pi/2) in both spellings, CNOT CY CZ SWAP "
+             "iSWAP FSWAP ECR, CRX/CRY/CRZ at flagged fl(k*pi)), random qubit placements and measured subsets in random order; every engine rule on "
+             "its complete local truth table; flags over the gate catalogue x 0..2 controls; floats: random bit patterns, neighbours of k*pi/2, "
+             "specials. A case is non-trivial if it has more than one gate / a determined outcome / a distinct input; distinct by hash of the input")
+
+
+def main(run):
+    rng = random.Random(run.seed)
+    run.trusted += ["Coq 8.16.1 kernel incl. primitive floats/int63 and vm_compute",
+                    "harness/c12.py translator of _clifford_operations.py (fail-closed; cross-checked by the probe correspondence on the real functions)",
+                    "extraction of gate attributes (class name, init_args, control/target qubits, parameters[0], init_kwargs['theta']) by the harness",
+                    "Pauli.v: meaning of 'gate on qubits' and of a tableau row as operators on amplitude functions (list bool -> Gaussian integer)",
+                    "gate matrices of Pauli.v (scaled Gaussian integers) compared with gate.matrix() numerically (test)",
+                    "numpy state-vector backend as the reference of the tests labelled 'test' (tolerance %g)" % TOL]
+    run.assumptions += ["floats are modelled only in the flag and the angle dispatch; operators are exact (rotation gates mean their exact multiple of pi/2)",
+                        "PauliNoiseChannel, execute_circuit_repeated and collapsing measurements are outside the Coq model (collapse observed by a test)",
+                        "stim is an external simulator (compared, not verified)"]
+    sec_constants(run)
+    tr = sec_translate(run)
+    fnames = tr.order if tr is not None else list(STATIC_OP)
+    sec_static(run)
+    sec_float_validation(run, rng)
+    sec_flag_sweep(run)
+    sec_flag_witnesses(run)
+    sec_flags(run)
+    sec_probes(run, rng, fnames)
+    sec_matrices(run)
+    sec_circuits(run, rng)
+    sec_reject(run, rng)
+    sec_collapse(run)
+    sec_stim(run, rng)
+    sec_to_circuit(run, rng)
+    run.notes.pop("reported_keys", None)
+    return run.finish(level="proof", rule=RULE_TEXT)
